@@ -26,33 +26,61 @@ pub const RANK_FOREIGN: i64 = -1;
 /// Projection of an unevaluated individual.
 pub const RANK_UNEVALUATED: i64 = -2;
 
-/// Objective values of a run: `vals[r]` is the value of dense rank `r` (strictly ascending,
-/// finite); rank `INF` is `+inf`.
+/// Objective values of a run: `vals[r]` is the value of dense rank `r` (strictly ascending as
+/// NUMBERS, finite); rank `INF` is `+inf`.
+///
+/// P-rank is the rank of the *number*: `+0.0` and `-0.0` are the same objective value (a tie for
+/// every operator that compares objective values) although their bit patterns differ.  A table
+/// entry `"+-0.0"` stands for the value zero carried as `+0.0` by individuals with an odd tag and
+/// as `-0.0` by individuals with an even tag, `"-+0.0"` for the opposite assignment (`"0.0"` /
+/// `"-0.0"`: one sign for everybody).  Which pattern an individual carries is a function of its
+/// tag, so an exact copy still has the bits of its original (`rank_of` answers `RANK_FOREIGN`
+/// for a zero of the wrong sign).
 pub struct Values {
     pub vals: Vec<f64>,
+    /// per rank: 0 = as written, 1 = zero with sign by tag (odd +, even -), 2 = (odd -, even +)
+    zero_sign: Vec<u8>,
 }
 
 impl Values {
     pub fn parse(strs: &[String]) -> Self {
-        let vals: Vec<f64> = strs.iter().map(|s| s.parse().expect("float")).collect();
+        let zero_sign: Vec<u8> = strs
+            .iter()
+            .map(|s| match s.as_str() {
+                "+-0.0" => 1,
+                "-+0.0" => 2,
+                _ => 0,
+            })
+            .collect();
+        let vals: Vec<f64> = strs
+            .iter()
+            .zip(&zero_sign)
+            .map(|(s, z)| if *z > 0 { 0.0 } else { s.parse().expect("float") })
+            .collect();
         assert!(vals.windows(2).all(|w| w[0] < w[1]), "value table must be strictly ascending");
         assert!(vals.iter().all(|v| v.is_finite()));
-        Self { vals }
+        Self { vals, zero_sign }
     }
 
-    pub fn value(&self, rank: i64) -> f64 {
+    /// Objective value (bit pattern) the individual `tag` carries at rank `rank`.
+    pub fn value(&self, tag: u32, rank: i64) -> f64 {
         if rank == INF {
-            f64::INFINITY
-        } else {
-            self.vals[rank as usize]
+            return f64::INFINITY;
+        }
+        let r = rank as usize;
+        match (self.zero_sign[r], tag % 2 == 1) {
+            (0, _) => self.vals[r],
+            (1, true) | (2, false) => 0.0,
+            _ => -0.0,
         }
     }
 
     pub fn individual(&self, tag: u32, rank: i64) -> Ind {
-        Individual::new(tag, SingleObjective::try_from(self.value(rank)).expect("legal objective"))
+        Individual::new(tag, SingleObjective::try_from(self.value(tag, rank)).expect("legal objective"))
     }
 
-    /// P-rank by exact bit pattern.
+    /// P-rank: position of the number in the table; the bit pattern must be the one this
+    /// individual (tag) was given.
     pub fn rank_of(&self, ind: &Ind) -> i64 {
         match ind.get_objective() {
             None => RANK_UNEVALUATED,
@@ -61,11 +89,10 @@ impl Values {
                 if v == f64::INFINITY {
                     return INF;
                 }
-                self.vals
-                    .iter()
-                    .position(|x| x.to_bits() == v.to_bits())
-                    .map(|p| p as i64)
-                    .unwrap_or(RANK_FOREIGN)
+                match self.vals.iter().position(|x| *x == v) {
+                    Some(p) if self.value(*ind.solution(), p as i64).to_bits() == v.to_bits() => p as i64,
+                    _ => RANK_FOREIGN,
+                }
             }
         }
     }
